@@ -61,7 +61,11 @@ def _chunk(jobs):
     from graphql.utilities import get_introspection_query, build_client_schema, find_schema_changes, introspection_from_schema
     out = []
     for sd, route, tier in jobs:
-        S = gs.gen_schema(sd)
+        if isinstance(sd, tuple):
+            S = {k: v for k, v in gs.lone_schemas()[sd[1]].items() if not k.startswith("_")}
+            sd = 1 + sd[1] * 3
+        else:
+            S = gs.gen_schema(sd)
         if sd % 3 == 0:
             S = gs.with_redefined_directive(S, random.Random(sd))
         viol = []
@@ -149,6 +153,9 @@ def run(tier: str, rd):
     n = 24 if tier == "quick" else 240
     base = seed() * 1000000 + 1800000
     jobs = [(base + k, "sdl" if k % 2 == 0 else "programmatic", tier) for k in range(n)]
+    jobs += [(("lone", k), "sdl" if k % 2 == 0 else "programmatic", tier) for k in range(len(gs.lone_schemas()))][:: (2 if tier == "quick" else 1)]
+    if tier != "quick":
+        jobs += [(("lone", k), "sdl" if k % 2 else "programmatic", tier) for k in range(len(gs.lone_schemas()))]
     recs = []
     for lst in pmap(_chunk, jobs, chunk=1):
         recs += lst
